@@ -288,7 +288,15 @@ impl DIDUrl {
     let url: RelativeDIDUrl = {
       let mut url: RelativeDIDUrl = RelativeDIDUrl::new();
       url.set_path(Some(did_url.path()))?;
-      url.set_query(did_url.query())?;
+      // `set_query` ignores one leading '?' (the delimiter). The query of the parsed DID Url comes without the
+      // delimiter and may itself begin with '?': hand the delimiter over explicitly so that it is not cut off.
+      url.set_query(
+        did_url
+          .query()
+          .filter(|query| !query.is_empty())
+          .map(|query| format!("?{query}"))
+          .as_deref(),
+      )?;
       url.set_fragment(did_url.fragment())?;
       url
     };
